@@ -235,6 +235,12 @@ class Spec:
                                             and not self.shape.startswith("derived")):
             msg = f"no such order of first use for this shape: {defn}"
             raise ValueError(msg)
+        # alias: every form is used through an undecorated, field-less subclass of the definition (how one field layout
+        # is re-used for a second message); shapes flat / wid only, default order of first use
+        self.alias = bool(defn.get("alias"))
+        if self.alias and (self.first or self.shape not in ("flat", "wid") or self.lib is not None):
+            msg = f"alias is defined for flat / wid definitions used in the default order: {defn}"
+            raise ValueError(msg)
         self.slices = []                      # per field: (first name index, number of names)
         j = 0
         for f in self.fields:
@@ -770,7 +776,10 @@ def evaluate(defn: dict, seed: int, b: dict, only_call: int | None = None) -> tu
     viol: list = []
     spec = Spec(defn)
     ikids = kids_for("interp")
-    ref_cls = build_plain(spec, ikids, compiled=False)     # an exception here is a harness bug: let it propagate
+
+    def alias(cls: type) -> type:
+        return type("C20Alias", (cls,), {"__module__": SCRATCH}) if spec.alias else cls
+    ref_cls = alias(build_plain(spec, ikids, compiled=False))     # an exception here is a harness bug: let it propagate
     forms: list = []                                       # (form, style, class, kids)
     build_failed: dict = {}
 
@@ -783,14 +792,14 @@ def evaluate(defn: dict, seed: int, b: dict, only_call: int | None = None) -> tu
     else:
         try:
             ckids = kids_for("compiled")
-            forms.append(("compiled", None, build_plain(spec, ckids, compiled=True), ckids))
+            forms.append(("compiled", None, alias(build_plain(spec, ckids, compiled=True)), ckids))
         except Exception as e:  # noqa: BLE001
             build_failed["compiled"] = type(e).__name__
             found("build", "compiled", None, None, f"vp_compile raises {_exc(e)[0]}: {_exc(e)[1]}", type(e).__name__)
     for style in dc_styles(spec):
         try:
             dkids = kids_for("dataclass")
-            forms.append(("dataclass", style, build_dc(spec, style, dkids), dkids))
+            forms.append(("dataclass", style, alias(build_dc(spec, style, dkids)), dkids))
         except Inexpressible as e:
             st[f"dataclass_inexpressible:{e.args[0]}"] += 1
         except Exception as e:  # noqa: BLE001
@@ -968,6 +977,9 @@ def render(defn: dict, dc_style: str | None = "typevar") -> str:
                 d = f" = field(default_factory=lambda: {dsrc})" if spec.default.startswith("list") else f" = {dsrc}"
             lines.append(f"    {spec.names[i]}: {_dc_type_source(f, dc_style)}{d}")
         lines += hooks
+    if spec.alias:
+        lines.append("class Alias(P): pass   # every form is constructed, packed and decoded through this subclass "
+                     "(no decorator, no fields)")
     lines.append("# C1 = [H, varlenH] names [x, y]; C2 = [varlenHutf8, [C1]] names [s, items] (same form as P)")
     if spec.first:
         for event in spec.first.split("+"):
@@ -1060,7 +1072,7 @@ def gen_defs(tier: str) -> tuple[list[tuple], list[dict]]:
     alphabets = {"ALL": [*REGISTERED, "payload", "payload-list"], "CORE": CORE, "SMALL": SMALL}
     items, seen, summary = [], set(), []
     for alpha, length, mode, hook_tokens, shapes, b in BLOCKS[tier]:
-        n0, n_first, n_style = len(items), 0, 0
+        n0, n_first, n_style, n_alias = len(items), 0, 0, 0
         seqs = _rot12(int(alpha[6:])) if alpha.startswith("ROT12") else _seqs(alphabets[alpha], length)
         for s in seqs:
             hook_sets = []
@@ -1099,6 +1111,9 @@ def gen_defs(tier: str) -> tuple[list[tuple], list[dict]]:
                     if k not in seen:
                         seen.add(k)
                         items.append((d, b))
+                        if shape in ("flat", "wid") and "bits" not in s and (alpha, length) in STYLE_BLOCKS[tier]:
+                            items.append(({**d, "alias": True}, {**b, "dev": min(b["dev"], 1)}))
+                            n_alias += 1
                         if not h and dflt is None and "bits" not in s:
                             # orders of first use: only the dataclass form has lazily built class state, so programs
                             # without a dataclass form ('bits') are skipped; hooks and defaults do not take part in it
@@ -1114,7 +1129,7 @@ def gen_defs(tier: str) -> tuple[list[tuple], list[dict]]:
                         "defaults_on_last_field": "absent | every format-appropriate value in DEFAULTS | None",
                         "hook_sets": hook_tokens, "shapes": shapes, "hooks_x_shapes": mode, "instance_bounds": b,
                         "programs": len(items) - n0, "of_which_first_use_orders": n_first,
-                        "of_which_rule_binding_styles": n_style})
+                        "of_which_rule_binding_styles": n_style, "of_which_used_through_an_undecorated_subclass": n_alias})
     # old-style base: class P(VariablePayload, Old) where Old is a hand-written Payload holding 1-2 leading fields
     ob = OLD_BLOCKS[tier]
     n0 = len(items)
@@ -1181,6 +1196,8 @@ def signature(defn: dict, v: dict) -> str:
         parts.append("style=" + v["dc_style"])
     if defn.get("first"):
         parts.append("first=" + defn["first"])
+    if defn.get("alias"):
+        parts.append("via=undecorated-subclass")
     return "|".join(parts) or "fmt=" + "+".join(defn["f"])
 
 
@@ -1192,6 +1209,8 @@ def _shrinks(defn: dict) -> list[dict]:
         out += [{**defn, "first": e} for e in defn["first"].split("+") if e != defn["first"]]
         if defn["first"].startswith("parent"):
             out.append({k: v for k, v in {**defn, "first": "decode"}.items() if k != "shape"})
+    if defn.get("alias"):
+        out.append({k: v for k, v in defn.items() if k != "alias"})
     if defn.get("shape"):
         out.append({k: v for k, v in defn.items() if k != "shape"})
     if defn.get("shape") == "old2":      # a one-field old-style base instead of a two-field one
